@@ -1,7 +1,10 @@
 import SciVerif.Tie.Task
 import SciVerif.Props.C02
+import SciVerif.Tie.Pins
 /-! Tie A obligations for C02 on the current source. -/
 namespace SciVerif.Tie
+-- functions the model relies on without an obligation of its own naming them (pinned by bin/mkpins):
+-- PIN-ALSO: Scipipe.FileIP_TempPath
 open SciVerif.TaskFS
 
 theorem generated_wf_c02 : WF_C02 taskSem := by decide
@@ -17,7 +20,23 @@ theorem c02_on_source (c : Cfg) (pre : Nat → Option File)
     (stepN taskSem c n (init taskSem c pre)).executed = 0 :=
   c02_preexisting_untouched taskSem generated_wf_c02 c pre hex n p
 
+
+-- BEGIN PINS (written by bin/mkpins; do not edit by hand)
+/-- the Go functions this property's model and obligations were written against have exactly the
+pinned skeletons (SHA-256 prefix of the atom list) -/
+theorem pinned_skeletons_c02 :
+    pinsOk
+    [("Scipipe.FileIP_TempPath", "7eba22a35232a5cb"),
+     ("Scipipe.FinalizePaths", "291fc0cefa37cea9"),
+     ("Scipipe.Task_Execute", "40fd1fec0c69deb2"),
+     ("Scipipe.Task_anyOutputsExist", "0609a842b7aaf7a8"),
+     ("Scipipe.Task_executeCommand", "98e77d849c0638cb"),
+     ("Scipipe.Task_finalizePaths", "9cd0530d4e86fa92"),
+     ("Scipipe.Task_formatCommand", "ccbe98735ce5c7d6")] = true := by decide
+-- END PINS
+
 end SciVerif.Tie
+#print axioms SciVerif.Tie.pinned_skeletons_c02
 #print axioms SciVerif.Tie.generated_wf_c02
 #print axioms SciVerif.Tie.generated_outcheck_all
 #print axioms SciVerif.Tie.c02_on_source
